@@ -219,7 +219,11 @@ def generate(rng, config):
                  len(a) > 4 and not a.startswith("--se")]
         if longs:
             j = rng.choice(longs)
-            argv[j] = argv[j][:rng.randint(3, len(argv[j]) - 1)]
+            # ('--output' is an option of its own, not an abbreviation of
+            # '--output-format': it would write a file named after the format)
+            lo = 10 if argv[j].startswith("--output-") else 3
+            if lo <= len(argv[j]) - 1:
+                argv[j] = argv[j][:rng.randint(lo, len(argv[j]) - 1)]
     if c["outfile"]:
         # keep the formula on stdout: compare bytes there
         i = argv.index("-o")
